@@ -131,6 +131,22 @@ def confirm_cpu(source: str, mode: str) -> str:
     return "violation" if over == 3 else "inconclusive"
 
 
+def max_bracket_nesting(src: str) -> int:
+    d = m = 0
+    for ch in src:
+        if ch in "([":
+            d += 1
+            m = max(m, d)
+        elif ch in ")]" and d:
+            d -= 1
+    import re
+
+    runs = [len(r.group(0).split()) for r in re.finditer(r"(?:\bnot\s+){2,}", src)]  # a chain of prefix operators nests just the same
+    # and / or group from the right, so a long flat chain inside one tag is a deep right spine too
+    chains = [len(re.findall(r"\b(?:and|or)\b", mk)) for mk in re.findall(r"\{%.*?%\}|\{\{.*?\}\}", src, re.S)]
+    return max([m] + runs + chains)
+
+
 def fragment_of(src: str) -> str:
     import re
 
@@ -170,8 +186,9 @@ def judge_parse(ctx: core.Ctx, case: dict[str, Any]) -> None:
             ctx.inconclusive(f"CPU guard fired once for a {len(src)}-character source but was not reproduced in isolation")
         return
     if rec:
+        nest = max_bracket_nesting(src)
         ctx.violation(
-            f"RecursionError-while-parsing:{fragment_of(src)}",
+            "RecursionError-while-parsing:expression-nested-or-chained-150-or-more-levels" if nest >= 150 else f"RecursionError-while-parsing:{fragment_of(src)}",
             f"parsing {len(src)} characters ({mode}) raised RecursionError {rec}x inside the library (final outcome {out.brief()!r:.120}, max Python stack depth {depth}): {src!r:.160}",
             {"source": src[:3000]},
         )
@@ -367,6 +384,19 @@ def parse_cases(ctx: core.Ctx, rng):
                     continue
                 yield {"kind": "parse", "source": (frag * n)[:8000], "mode": mode}
                 yield {"kind": "parse", "source": ("x " + frag) * min(n, 400) + "{% endif %}", "mode": mode}
+    # deep expression nesting (parentheses, bracketed paths, not-chains, filter arguments), far beyond anything a block nesting limit covers
+    for n in (20, 100, 400, 1500):
+        for mode in ("strict", "lax"):
+            k += 1
+            if k % ctx.nshards != ctx.shard:
+                continue
+            for src in (
+                "{% if " + "(" * n + "a" + ")" * n + " %}x{% endif %}", "{{ a" + "[b" * n + "]" * n + " }}", "{% if " + "not " * n + "a %}x{% endif %}", "{{ " + "(" * n + "1..2" + ")" * n + " }}",
+                "{{ a" + ".b" * n + " }}", "{{ a" + " | f: b" * n + " }}", "{% if a" + " and a" * n + " %}x{% endif %}", "{% if a" + " or (a" * n + ")" * n + " %}x{% endif %}",
+                "{{ 'x' if " + "(" * n + "a" + ")" * n + " else 'y' }}", "{% liquid\n" + "if a\n" * min(n, 200) + "echo 1\n" + "endif\n" * min(n, 200) + "%}", "{% assign x = a" + "[0]" * n + " %}",
+                "{% case a %}" + "{% when " + ", ".join(["1"] * n) + " %}x{% endcase %}", "{% cycle " + ", ".join(["a"] * n) + " %}",
+            ):
+                yield {"kind": "parse", "source": src[:16000], "mode": mode}
     for i in range(ctx.budget(1500, 400_000)):
         r = rng.random()
         g = tpl.Gen(rng, tpl.GenCfg(extra=True, max_nodes=24, wild=0.1))
